@@ -126,9 +126,7 @@ func tagsOf(s seriesDef) [][2]string {
 func (r *run) writeRow(fam int, s seriesDef, slot int, jitter int64, fvs []fieldVal, h *histVal, sameTick bool) {
 	r.declare(s)
 	creates := r.sh.needsTick(fam)
-	if creates && !sameTick {
-		waitTick()
-	}
+	_ = sameTick // (created times are process-unique since fix 4be15ce: no waiting for a clock tick)
 	ts := r.e.familyTime(fam) + int64(slot)*r.ivMs + jitter
 	err := r.e.writeRow(fam, ts, tagsOf(s), fvs, h)
 	if creates && err == nil {
@@ -149,6 +147,7 @@ func (r *run) writeRow(fam int, s seriesDef, slot int, jitter int64, fvs []field
 			if of != fam && ot == id && r.sh.fam(of).mem != nil {
 				r.collided = true
 				r.c.Branch("case/created-tick-collision")
+				r.c.Fail("created-time-not-unique", fmt.Sprintf("the memory databases of families %d and %d have the same created time", of, fam))
 			}
 		}
 		r.famTick[fam] = id
@@ -251,33 +250,21 @@ func (r *run) region(q qSpec) string {
 // regions lists every excluded region (recorded finding) the query falls into.
 func (r *run) regions(q qSpec) []string {
 	var regs []string
-	if r.sh.unsafeEver {
-		regs = append(regs, "unsafe-window-order")
-	}
-	if r.collided {
-		regs = append(regs, "created-tick-collision")
-	}
-	aggsOfField := map[int]map[int]bool{}
-	for _, it := range q.items {
-		ft := schema[it.fld].ftype
-		a := funcAgg(ft, it.fn)
-		if aggsOfField[it.fld] == nil {
-			aggsOfField[it.fld] = map[int]bool{}
-		}
-		aggsOfField[it.fld][a] = true
-	}
-	for _, m := range aggsOfField {
-		if len(m) > 1 {
-			regs = append(regs, "multi-func-field")
-			break
-		}
-	}
+	// (repaired and therefore inside the claimed region since the fix: commits 02a0667, 4be15ce,
+	// eb2ea99, 636394b, c783635: first-time slot before the window's end, memory databases created
+	// in one clock tick, two functions on one field, a source of the family without data for the
+	// query, a one-field file in a query on several fields)
 	for _, it := range q.items {
 		ft := schema[it.fld].ftype
 		a := funcAgg(ft, it.fn)
 		fa := aggOfFieldType(ft)
-		if (a != fa || !commutative(fa)) && r.sh.splitField[it.fld] {
+		if a != fa && r.sh.splitField[it.fld] {
+			// a function other than the field's aggregate is applied per storage unit
 			regs = append(regs, "split-slot")
+		}
+		if a == fa && !commutative(fa) && r.sh.splitFlushField[it.fld] {
+			// first/last across a flush: sources are loaded memory first, files last
+			regs = append(regs, "split-slot-across-flush")
 		}
 		if !commutative(a) {
 			if q.ratio > 1 {
@@ -292,12 +279,6 @@ func (r *run) regions(q qSpec) []string {
 				}
 			}
 		}
-	}
-	if r.sh.notFoundRegion(q, r.scopeSeries(q)) {
-		regs = append(regs, "family-notfound")
-	}
-	if r.sh.singleFieldFileRegion(q) {
-		regs = append(regs, "single-field-file")
 	}
 	return regs
 }
@@ -329,6 +310,15 @@ func (r *run) query(q qSpec) (aggResult, string) {
 	wantLine := want.render()
 	r.c.Op("ref "+q.proto(), wantLine)
 	reg := r.region(q)
+	if r.sh.notFoundRegion(q, r.scopeSeries(q)) {
+		r.c.Branch("query/shape:source-without-data")
+	}
+	if r.sh.singleFieldFileRegion(q) {
+		r.c.Branch("query/shape:one-field-file")
+	}
+	if r.sh.unsafeEver {
+		r.c.Branch("query/shape:after-out-of-order-window-write")
+	}
 	if reg == "" {
 		r.c.Branch("query/in-region")
 	} else {
@@ -392,10 +382,7 @@ func runRandom(c *core.Ctx, idx int) {
 	defer r.close()
 	spf := r.spf
 	// out-of-region budget: a minority of cases may contain the excluded window order
-	allowUnsafe := rng.Intn(5) == 0
-	if allowUnsafe {
-		c.Branch("case/allow-unsafe-order")
-	}
+	_ = rng.Intn(5) // (kept: the random stream of the cases is unchanged)
 	// series universe: tags k1, k2 with values 1..3
 	nSeries := 1 + rng.Intn(4)
 	var sdefs []seriesDef
@@ -475,8 +462,8 @@ func runRandom(c *core.Ctx, idx int) {
 				all = append(all, 6, 7, 8, 9, 10, 11, 12)
 			}
 			for _, f := range all {
-				if !allowUnsafe && r.sh.wouldBeUnsafe(fam, s.id, f, slot) {
-					ok = false
+				if r.sh.wouldBeUnsafe(fam, s.id, f, slot) {
+					c.Branch("gen/out-of-order-window-write")
 				}
 				if !commutative(aggOfFieldType(schema[f].ftype)) && r.sh.flushedCell[cellKey{fam, s.id, f, slot}] {
 					ok = false
@@ -614,19 +601,6 @@ func genQuery(rng *rand.Rand, r *run, flds []int, useHist bool, fams []int) qSpe
 // one agg type per field (finding two-functions-one-field-cross-aggregated is in the root's
 // merge as well).
 func (r *run) exprCheck(q qSpec, leaf aggResult) {
-	aggsOfField := map[int]map[int]bool{}
-	for _, it := range q.items {
-		a := funcAgg(schema[it.fld].ftype, it.fn)
-		if aggsOfField[it.fld] == nil {
-			aggsOfField[it.fld] = map[int]bool{}
-		}
-		aggsOfField[it.fld][a] = true
-	}
-	for _, m := range aggsOfField {
-		if len(m) > 1 {
-			return
-		}
-	}
 	got, err := r.e.exprEval(q)
 	if err != nil {
 		return
